@@ -59,7 +59,11 @@ for sid in sorted(os.listdir(SEEDED)):
             row["checks"][prop] = {"exit": q.returncode, "classes": classes, "replays_reproduce": stable, "wall_s": round(time.time() - t0, 1),
                                    "tail": q.stdout.strip().splitlines()[-1][:200] if q.stdout.strip() else q.stderr[-300:]}
         main = row["checks"][meta["property"]]
-        row["verdict"] = "caught" if (main["exit"] == 1 and main["replays_reproduce"]) else "MISSED"
+        if meta.get("expect") == "neutralised":
+            # the weakness this change exploited has been repaired in /repo: it must no longer break the property
+            row["verdict"] = "neutralised-ok" if (main["exit"] == 0 and d_mut == 0) else "UNEXPECTED"
+        else:
+            row["verdict"] = "caught" if (main["exit"] == 1 and main["replays_reproduce"]) else "MISSED"
         results = [r for r in results if r["id"] != sid] + [row]
         print(json.dumps(row), flush=True)
     finally:
